@@ -49,7 +49,7 @@ def _points(n_lo, n_hi, d):
 def _matrix(draw, tier):
     d = draw(st.integers(1, 3))
     square = draw(st.booleans())
-    kern = draw(st.sampled_from(KERNELS + (() if square else ("nonsym", "nonsym"))))
+    kern = draw(st.sampled_from(KERNELS + (() if square else ("nonsym",) * 5)))
     X = draw(_points(1, 4 if kern == "qnode" else 8, d))
     if draw(st.integers(0, 4)) == 0 and len(X) >= 2:
         X[-1] = list(X[0])  # duplicate data point
